@@ -7,12 +7,12 @@
    Domain: all orthorhombic boxes with edges in OrthoEdges, all GROMACS-reduced
    triclinic integer boxes with diagonal in TricEdges (off-diagonals up to half the
    edge, equality included), the zero matrix; r in a cube reaching 3/2 box edges + 1
-   in every direction; thinned deterministically by a hash (one slice out of SlicesO resp. SlicesT) so that
-   the tiers can scale; every point also with two shifted copies of the pair of
+   in every direction; thinned deterministically (boxes by slice, r_x per (r_y, r_z) row) so
+   that the tiers can scale; every point also with two shifted copies of the pair of
    points (a near and a far image, up to 4000 boxes apart).                      *)
 EXTENDS Pbc, TLC, Json
 
-CONSTANTS OrthoEdges, TricEdges, SlicesO, SlicesT, ExplicitThin, Slice, Emit
+CONSTANTS OrthoEdges, TricEdges, SlicesO, SlicesT, XRowO, XRowT, ExplicitThin, Slice, Emit
 VARIABLES B, req, r, e, ph
 vars == <<B, req, r, e, ph>>
 
@@ -28,18 +28,31 @@ Reqs(b) == IF IsZeroBox(b) THEN {"auto", "open"}
            ELSE IF IsDiagonal(b) THEN {"auto", "ortho", "tric", "open"}
            ELSE {"auto", "tric", "open"}
 Reach(n) == (3 * n) \div 2 + 1
-RDom(b) == IF IsZeroBox(b) THEN {<<x, y, z>> : x \in -2..2, y \in -2..2, z \in -2..2}
-           ELSE {<<x, y, z>> : x \in (-Reach(b.a[1]))..Reach(b.a[1]),
-                               y \in (-Reach(b.b[2]))..Reach(b.b[2]),
-                               z \in (-Reach(b.c[3]))..Reach(b.c[3])}
+Range(n) == (-Reach(n))..Reach(n)
 
-Hash(b, rr) == rr[1] * 31 + rr[2] * 17 + rr[3] * 7 + b.a[1] * 13 + b.b[1] * 5 + b.b[2] * 11
-               + b.c[1] * 3 + b.c[2] * 19 + b.c[3] * 23 + 100000
-Selected(b, rq, rr) ==
-  \/ IsZeroBox(b)
-  \/ LET s == IF IsDiagonal(b) THEN SlicesO ELSE SlicesT
-         m == IF rq = "auto" THEN s ELSE s * ExplicitThin
-     IN Hash(b, rr) % m = Slice % m
+\* Thinning (structural, so that nothing is enumerated only to be filtered out): boxes are
+\* selected by a hash (one slice out of SlicesO / SlicesT); for a selected box every (r_y, r_z)
+\* row of the displacement cube is visited and XRowO / XRowT values of r_x are taken per row at
+\* hashed positions (all of them if the row is shorter).  Explicitly requested types are
+\* visited on every ExplicitThin-th row.  Multipliers are primes; every term stays far below 2^31.
+BoxHash(b) == (b.a[1] * 15485863 + b.b[1] * 3245291 + b.b[2] * 4997981 + b.c[1] * 2750159
+               + b.c[2] * 5800079 + b.c[3] * 9999991 + 500000000) % 1000003
+BoxSelected(b) == \/ IsZeroBox(b)
+                  \/ IsDiagonal(b) /\ BoxHash(b) % SlicesO = Slice % SlicesO
+                  \/ ~IsDiagonal(b) /\ BoxHash(b) % SlicesT = Slice % SlicesT
+RowHash(b, y, z) == (BoxHash(b) + y * 104729 + z * 1299709 + (Slice % 100000) * 7919 + 500000000) % 1000003
+XSet(b, y, z) ==
+  LET R == Reach(b.a[1])
+      w == 2 * R + 1
+      n == IF IsDiagonal(b) THEN XRowO ELSE XRowT
+      h == RowHash(b, y, z)
+  IN IF IsZeroBox(b) THEN -2..2
+     ELSE IF n >= w THEN (-R)..R
+     ELSE {-R + ((h + t * (h \div 1000 + 1)) % w) : t \in 0..(n - 1)}
+YSet(b) == IF IsZeroBox(b) THEN -2..2 ELSE Range(b.b[2])
+ZSet(b) == IF IsZeroBox(b) THEN -2..2 ELSE Range(b.c[3])
+\* used for the choice of placements below
+Hash(b, rr) == (RowHash(b, rr[2], rr[3]) + rr[1] * 7919 + 100000) % 1000003
 
 \* positions of point i, and (k_i, k_j) image shifts applied to the two points
 Offsets == << <<0, 0, 0>>, <<1, -2, 3>>, <<-5, 4, -1>>, <<7, 7, -6>> >>
@@ -75,15 +88,18 @@ Expect(b, rq, rr) ==
       vol |-> Volume(b),
       hn2 |-> IF IsZeroBox(b) THEN 0 ELSE ShortN2(b)]
 
-\* Phase 0: one initial state per box.  Phase 1: its successors, one per selected (req, r);
-\* (TLC computes initial states with one thread but expands them with all workers.)
-Init == /\ B \in AllBoxes
+\* Phase 0: one initial state per selected box.  Phase 1: its successors, one per visited
+\* (req, r).  (TLC computes initial states with one thread but expands them with all workers.)
+Init == /\ B \in AllBoxes /\ BoxSelected(B)
         /\ ph = 0 /\ req = "auto" /\ r = Zero3 /\ e = [typ |-> "none"]
 Next == /\ ph = 0 /\ ph' = 1 /\ B' = B
-        /\ req' \in Reqs(B)
-        /\ r' \in RDom(B)
-        /\ Selected(B, req', r')
-        /\ e' = Expect(B, req', r')
+        /\ \E y \in YSet(B), z \in ZSet(B) :
+             \E rq \in Reqs(B) :
+               /\ (rq = "auto" \/ IsZeroBox(B) \/ RowHash(B, y, z) % ExplicitThin = 0)
+               /\ \E x \in XSet(B, y, z) :
+                    /\ req' = rq
+                    /\ r' = <<x, y, z>>
+                    /\ e' = Expect(B, rq, <<x, y, z>>)
 Spec == Init /\ [][Next]_vars
 
 NP == Len(e.pairs)
